@@ -356,6 +356,8 @@ def run(P, R, L):
     K.list1_iteration_covers_the_list(P, R, L)
     R.clause("GRD-24", "a declined manifest re-use leaves manifest_file_number alone (it names the manifest that is kept and that CURRENT points at)")
     K.grd24_reuse_adopts_number_with_file(P, R, L)
+    R.clause("GRD-36", "a replacement manifest is written under a fresh file number: the manifest CURRENT names is never truncated")
+    K.grd36_new_manifest_number_is_fresh(P, R, L)
     R.clause("GRD-26", "recover reports the manifest as adopted only when maybe_reuse_manifest adopted it (otherwise no new manifest is written and the old one is collected)")
     K.grd26_reused_flag_truthful(P, R, L)
     R.clause("LVL-1", "get_live_files visits every level (files of the deepest level are protected from the collector)")
